@@ -33,7 +33,44 @@ func c15(c *Ctx) {
 	r.Rule("R15.T", "every loop whose bound comes from the wire leaves on the sticky decoder error", 2)
 	c.loopTermination("R15.T", fns)
 	c.readerLoops("R15.T", fns)
-	c.nilTypes("R15.N", fns)
+	c.nilTypes("R15.N", fns, 30)
+	// R15.G: decoding (and the encoding that runs beside it on other goroutines) writes no package-level state.
+	// The registry maps are filled by init(); a map, cache or counter written from inside Decode / Marshal is
+	// written by the receive goroutine and every caller at once, and an unsynchronised map write ends the
+	// process with a fatal error no recover() can stop.
+	r.Rule("R15.G", "nothing reachable from Decode / DecodeUnknownObject / Marshal writes a package-level variable (store, map update, delete): the codec keeps no shared mutable state", 1)
+	{
+		entries2 := append([]*ssa.Function{}, entries...)
+		if f := c.P.Func(load.TLPkg, "", "Marshal"); f != nil {
+			entries2 = append(entries2, f)
+		}
+		region := c.censusRegion(entries2, nil)
+		ws := an.GlobalWrites(region)
+		ord := map[string]int{}
+		own := 0
+		for _, w := range ws {
+			if w.Global.Pkg != nil && !strings.HasPrefix(w.Global.Pkg.Pkg.Path(), "github.com/xelaj/mtproto") {
+				continue
+			}
+			base := an.ShortName(w.Instr.Parent()) + "/" + w.Global.Name()
+			ord[base]++
+			own++
+			locked := false
+			for _, cs := range an.Calls(w.Instr.Parent()) {
+				if (cs.Name == "(*sync.Mutex).Lock" || cs.Name == "(*sync.RWMutex).Lock") && an.InstrDominates(cs.Instr, w.Instr) {
+					locked = true
+				}
+			}
+			if locked {
+				r.Hold("R15.G", sprintf("global-write:%s#%d", base, ord[base]), c.pos(w.Instr.Pos()), "package variable written inside an exclusive lock section")
+				continue
+			}
+			r.Violate("R15.G", sprintf("global-write:%s#%d", base, ord[base]), c.pos(w.Instr.Pos()), sprintf("%s of the package variable %s on a codec path: two decodes (the receive loop and a caller, or two clients) write it concurrently", w.What, w.Global.Name()))
+		}
+		if own == 0 {
+			r.Hold("R15.G", "global-write:none", "", sprintf("%d functions reachable from the codec entry points, none writes a package variable", len(region)))
+		}
+	}
 	n, d, a := c.runCensus("R15.C", fns, nil, conds)
 	r.Extra["census_functions"] = len(fns)
 	r.Extra["census_sites"] = n
@@ -259,12 +296,12 @@ func (c *Ctx) readerLoops(rule string, fns []*ssa.Function) {
 // Every method call on a reflect.TypeOf(y) result needs y non-nil at the call; the decoder's values are non-nil
 // by its sticky-error discipline, which is checked, not assumed: the error field is only ever stored non-nil
 // errors, a function's nil result implies the field is set, results are used where the field is still clear.
-func (c *Ctx) nilTypes(rule string, fns []*ssa.Function) {
+func (c *Ctx) nilTypes(rule string, fns []*ssa.Function, floor int) {
 	r := c.R
-	r.Rule(rule, "a method is called on reflect.TypeOf(y) only where y is not nil: y is boxed on the spot, tested against nil, or held in a field every store of which is a function result used with the sticky decoder error still clear - the functions return nil only with the error set, and the error field is never stored a nil", 30)
+	r.Rule(rule, "a method is called on reflect.TypeOf(y) only where y is not nil: y is boxed on the spot, tested against nil, or held in a field every store of which is a function result used with the sticky decoder error still clear - the functions return nil only with the error set, and the error field is never stored a nil; or the value half of a (value, error) result used behind the nil edge of that error, the callee returning a nil value only with an error", floor)
 	var pop []*ssa.Function
 	for f := range c.P.AllFunctions() {
-		if f.Pkg != nil && f.Pkg.Pkg.Path() == load.TLPkg && f.Synthetic == "" && len(f.Blocks) > 0 {
+		if c.P.InRepo(f) && f.Synthetic == "" && len(f.Blocks) > 0 {
 			pop = append(pop, f)
 		}
 	}
@@ -310,6 +347,18 @@ func (c *Ctx) nilTypes(rule string, fns []*ssa.Function) {
 				nn.Why = ""
 				if nn.Value(y, b, 0) {
 					r.Hold(rule, key, c.pos(in.Pos()), "non-nil: "+strings.Join(nn.Notes, "; "))
+				} else if e, ok := c.triageEntry(rule, key); ok {
+					// accepted sites name a machine-checked condition: the decoder's contract "a nil object only with an error"
+					cond := true
+					if e.Condition == "decode-nil-implies-error" {
+						du := c.P.Func(load.TLPkg, "", "DecodeUnknownObject")
+						nn.Why = ""
+						cond = du != nil && nn.PairContract(du, 0) && decodedLeaves(y, 0, map[ssa.Value]bool{})
+						if cond == false && nn.Why == "" {
+							nn.Why = "the value is not (only) an object DecodeUnknownObject returned"
+						}
+					}
+					r.Check(cond, rule, key, c.pos(in.Pos()), "accepted under condition "+e.Condition+" ["+nn.Why+"]: "+e.Reason)
 				} else {
 					r.Violate(rule, key, c.pos(in.Pos()), "method "+ci.Common().Method.Name()+" is called on reflect.TypeOf(y), and y may be nil here ("+nn.Why+"): a nil reflect.Type, a nil dereference")
 				}
@@ -329,4 +378,37 @@ func fieldKeyOf(fa *ssa.FieldAddr) (string, *types.Struct) {
 		return "", nil
 	}
 	return pt.Elem().String() + "." + st.Field(fa.Field).Name(), st
+}
+
+// decodedLeaves: every value merged into v is result 0 of tl.DecodeUnknownObject or the Obj of a gzip_packed.
+func decodedLeaves(v ssa.Value, d int, seen map[ssa.Value]bool) bool {
+	if d > 8 {
+		return false
+	}
+	if seen[v] {
+		return true
+	}
+	seen[v] = true
+	switch x := v.(type) {
+	case *ssa.ChangeInterface:
+		return decodedLeaves(x.X, d+1, seen)
+	case *ssa.ChangeType:
+		return decodedLeaves(x.X, d+1, seen)
+	case *ssa.Phi:
+		for _, e := range x.Edges {
+			if !decodedLeaves(e, d+1, seen) {
+				return false
+			}
+		}
+		return true
+	case *ssa.Extract:
+		call, ok := x.Tuple.(*ssa.Call)
+		return ok && x.Index == 0 && an.CalleeName(call.Common()) == load.TLPkg+".DecodeUnknownObject"
+	case *ssa.UnOp:
+		if fa, ok := x.X.(*ssa.FieldAddr); ok {
+			k, _ := fieldKeyOf(fa)
+			return strings.HasSuffix(k, "objects.GzipPacked.Obj")
+		}
+	}
+	return false
 }
